@@ -65,15 +65,15 @@ Proof.
   - unfold run_legacy. destruct (no_args a).
     + destruct (a_timeout a) as [T|]; [|reflexivity].
       intros Hx. rewrite <- (lg_add_zero L0) in Hx |- * at 1.
-      apply (loop_ledger (mkp a (Some T) false false lg_zero) L0); [reflexivity|exact Hx].
+      apply (loop_ledger (mkp a (Some T) false false false false lg_zero) L0); [reflexivity|exact Hx].
     + destruct (immediate (cn_eff true a) a (truth_after init pre)) as [[x|] hp0]; [reflexivity|].
       destruct (a_badexpr a); [cbn; intros _; apply lg_sub_add2|].
       match goal with |- context [if ?c then _ else _] => destruct c end.
       * cbn. intros _. apply lg_sub_add_add.
-      * cbn [all_off d_now_restarts d_leak_legacy].
+      * cbn [all_off d_now_restarts d_leak_legacy d_hold_latest d_hold_attr_cancels].
         set (subs := lg_add (legacy_state_subs a) (legacy_event_subs a)).
         replace (lg_add (lg_add L0 (legacy_state_subs a)) (legacy_event_subs a)) with (lg_add L0 subs).
-        -- apply (loop_ledger (mkp a (a_timeout a) false false subs) L0). reflexivity.
+        -- apply (loop_ledger (mkp a (a_timeout a) false false false false subs) L0). reflexivity.
         -- subst subs. destruct L0, (legacy_state_subs a), (legacy_event_subs a). unfold lg_add; cbn. f_equal; lia.
   - unfold run_dm.
     destruct (no_args a && match a_timeout a with None => true | Some _ => false end); [reflexivity|].
@@ -81,7 +81,7 @@ Proof.
     match goal with |- context [if ?c then _ else _] => destruct c end; [reflexivity|].
     destruct (immediate (cn_eff false a) a (truth_after init pre)) as [[x|] hp0]; [reflexivity|].
     match goal with |- context [if ?c then _ else _] => destruct c end; [reflexivity|].
-    apply (loop_ledger (mkp a (dm_timeout all_off a) false false (dm_subs all_off a)) L0). reflexivity.
+    apply (loop_ledger (mkp a (dm_timeout all_off a) false false false false (dm_subs all_off a)) L0). reflexivity.
 Qed.
 
 (* ================================================================================================ *)
@@ -105,8 +105,8 @@ Proof.
     + destruct (t <=? te); reflexivity.
 Qed.
 
-Lemma earliest_timers : forall a T rs lk subs hp,
-  earliest (timers (mkp a T rs lk subs) 0 hp)
+Lemma earliest_timers : forall a T rs lk la af subs hp,
+  earliest (timers (mkp a T rs lk la af subs) 0 hp)
   = emin (earliest (map (fun o => (o, RTime o)) (future_offs a) ++ map (fun T => (T, RTimeout)) (opt_list T)))
          (expiry (a_hold a) hp).
 Proof.
@@ -184,7 +184,8 @@ Definition deliver_of (p : lparams) (L : ledger) (base : Z) (hp : option (Z * N)
   match o with
   | OCancel => done XCancelled t (if lp_leak p then L else release)
   | OUnw => loop p L base hp rest
-  | OAttr _ => if lp_state p then loop p L (wake p base t) hp rest else loop p L base hp rest
+  | OAttr _ => if lp_state p then loop p L (wake p base t) (if lp_attr_false p then None else hp) rest
+               else loop p L base hp rest
   | OState r n =>
       if lp_state p then
         match r with
@@ -192,7 +193,11 @@ Definition deliver_of (p : lparams) (L : ledger) (base : Z) (hp : option (Z * N)
         | STrue =>
             match lp_hold p with
             | None => done (XRet (RState n)) t release
-            | Some _ => loop p L (wake p base t) (match hp with None => Some (t, n) | Some _ => hp end) rest
+            | Some _ => loop p L (wake p base t)
+                             (match hp with
+                              | None => Some (t, n)
+                              | Some (ts, m) => Some (ts, if lp_latest p then n else m)
+                              end) rest
             end
         | SFalse => loop p L (wake p base t) None rest
         end
@@ -279,14 +284,16 @@ Qed.
 Lemma deliver_here : forall a T lk subs L hp t o rest S,
   args_ok a -> hp_ok a t hp -> static_not_due S t ->
   (forall hp', hp_ok a t hp' ->
-     outcome (loop (mkp a T false lk subs) L 0 hp' rest) = pick S (first_occ a hp' rest)) ->
-  outcome (deliver_of (mkp a T false lk subs) L 0 hp t o rest) = pick S (here_of a hp t o rest).
+     outcome (loop (mkp a T false lk false false subs) L 0 hp' rest) = pick S (first_occ a hp' rest)) ->
+  outcome (deliver_of (mkp a T false lk false false subs) L 0 hp t o rest) = pick S (here_of a hp t o rest).
 Proof.
   intros a T lk subs L hp t o rest S Ha Hok Hnd Hcont.
-  destruct o as [r0 n|n| |r0 n|]; cbn [deliver_of here_of mkp lp_state lp_event lp_hold lp_restart wake].
+  destruct o as [r0 n|n| |r0 n|]; cbn [deliver_of here_of mkp lp_state lp_event lp_hold lp_restart lp_latest lp_attr_false wake].
   - destruct (a_state a); [|apply Hcont; assumption].
     destruct r0; [destruct (a_hold a) eqn:Eh| |].
-    + apply Hcont. apply hp_ok_start; assumption.
+    + replace (match hp with Some (ts, m) => Some (ts, m) | None => Some (t, n) end)
+        with (match hp with Some _ => hp | None => Some (t, n) end) by (destruct hp as [[? ?]|]; reflexivity).
+      apply Hcont. apply hp_ok_start; assumption.
     + rewrite pick_not_due_here by assumption. reflexivity.
     + apply Hcont. apply hp_ok_none.
     + rewrite pick_not_due_here by assumption. reflexivity.
@@ -301,7 +308,7 @@ Qed.
    qualifying occurrence *)
 Lemma loop_spec : forall a T lk subs, args_ok a ->
   forall h L lo hp, timed_from lo h -> hp_ok a lo hp ->
-  outcome (loop (mkp a T false lk subs) L 0 hp h)
+  outcome (loop (mkp a T false lk false false subs) L 0 hp h)
   = pick (earliest (map (fun o => (o, RTime o)) (future_offs a) ++ map (fun T => (T, RTimeout)) (opt_list T)))
          (first_occ a hp h).
 Proof.
@@ -313,7 +320,7 @@ Proof.
     destruct (ts <=? te); reflexivity.
   - rewrite loop_cons, first_occ_cons, earliest_timers. fold S. destruct Ht as [Hlo Ht].
     assert (Hcont : forall hp', hp_ok a t hp' ->
-              outcome (loop (mkp a T false lk subs) L 0 hp' rest) = pick S (first_occ a hp' rest))
+              outcome (loop (mkp a T false lk false false subs) L 0 hp' rest) = pick S (first_occ a hp' rest))
       by (intros hp' Hok'; apply IH with (lo := t); assumption).
     (* is the hold period due at or before t? *)
     destruct (expiry (a_hold a) hp) as [[te re]|] eqn:EE.
@@ -389,7 +396,7 @@ Proof.
       destruct (negb (a_state a) && negb (a_event a)
                 && match future_offs a, a_timeout a with [], None => true | _, _ => false end) eqn:EN.
       * reflexivity.
-      * cbn [all_off d_now_restarts d_leak_legacy].
+      * cbn [all_off d_now_restarts d_leak_legacy d_hold_latest d_hold_attr_cancels].
         rewrite (loop_spec a (a_timeout a) false _ Ha h _ 0 hp0 Ht (immediate_hp_ok cn a truth hp0 Ha EI)).
         reflexivity.
   - unfold run_dm. rewrite Hcn, Hb, dm_timeout_all_off.
@@ -401,7 +408,7 @@ Proof.
       assert (Hfo : future_offs a = []) by (unfold future_offs; destruct (a_times a); [discriminate|reflexivity]).
       rewrite Hfo. destruct (a_timeout a); [discriminate|reflexivity].
     + destruct (immediate cn a truth) as [[x|] hp0] eqn:EI; [reflexivity|].
-      rewrite statics_nil. cbn [all_off d_none_eager d_leak_dm orb].
+      rewrite statics_nil. cbn [all_off d_none_eager d_leak_dm d_hold_latest d_hold_attr_cancels orb].
       (* the two formulations of "only exhausted time triggers" agree *)
       assert (Heq : (match a_times a with Some _ => true | None => false end
                      && match future_offs a with [] => true | _ => false end
@@ -587,6 +594,34 @@ Proof.
   exists (w_args true None (Some [-1000]) false None false), SFalse, [], [(2000, OState STrue 1%N)].
   repeat split; cbn; try lia. vm_compute. discriminate.
 Qed.
+
+Definition w_hold_args : wargs :=
+  {| a_state := true; a_cn := Some false; a_hold := Some 2750; a_times := None; a_event := false; a_timeout := None;
+     a_badexpr := false |}.
+
+Lemma refuted_D154 : exists a init pre h,
+  args_ok a /\ a_badexpr a = false /\ timed h /\
+  outcome (run only_D154 false a lg_zero init pre h) <> spec_run a (truth_after init pre) h.
+Proof.
+  exists w_hold_args, SFalse, [], [(1000, OState STrue 1%N); (1400, OState STrue 2%N)].
+  repeat split; cbn; try lia. vm_compute. discriminate.
+Qed.
+
+Lemma refuted_D155 : exists a init pre h,
+  args_ok a /\ a_badexpr a = false /\ timed h /\
+  outcome (run only_D155 false a lg_zero init pre h) <> spec_run a (truth_after init pre) h.
+Proof.
+  exists w_hold_args, SFalse, [], [(1000, OState STrue 1%N); (2000, OAttr 2%N)].
+  repeat split; cbn; try lia. vm_compute. discriminate.
+Qed.
+
+(* the hold period is neither restarted nor cancelled by further true evaluations, and the first dictionary is kept *)
+Example ex_hold_not_restarted :
+  let h := [(1000, OState STrue 1%N); (1400, OState STrue 2%N); (2000, OAttr 3%N); (2600, OState STrue 4%N)] in
+  outcome (run all_off true w_hold_args lg_zero SFalse [] h) = (XRet (RState 1), 3750)
+  /\ outcome (run all_off false w_hold_args lg_zero SFalse [] h) = (XRet (RState 1), 3750)
+  /\ spec_run w_hold_args SFalse h = (XRet (RState 1), 3750).
+Proof. vm_compute. repeat split. Qed.
 
 (* ================================================================================================ *)
 (* 6. the hypotheses are inhabited by non-trivial instances                                          *)
